@@ -56,7 +56,18 @@ def has_proxy(cfg: Dict) -> bool:
     return sum(1 for a in cfg.get("agents", []) if a.get("type") == "proxy-agent") == 1
 
 
-def case_cfg(case: Dict) -> Tuple[Dict, Optional[Dict]]:
+SCHEDULE_FOLDERS = [
+    "src/primaite/config/_package_data/mini_scenario_with_simulation_variation",
+    "src/primaite/config/_package_data/scenario_with_placeholders",
+    "tests/assets/configs/scenario_with_placeholders",
+    "src/primaite/config/_package_data/uc7_multiple_attack_variants",
+]
+
+
+def case_cfg(case: Dict) -> Tuple[Any, Optional[Dict]]:
+    if case["src"] == "folder":
+        # an episode-scheduled scenario: PrimaiteGymEnv takes the folder path and composes the YAML per episode
+        return _resolve(case["path"]), None
     if case["src"] == "gen":
         cfg, meta = gen_scenario.build(case["spec"])
         return cfg, meta
@@ -77,6 +88,20 @@ def resolve_action(op: List, n_actions: int, meta: Optional[Dict]) -> int:
     return idxs[j % len(idxs)]
 
 
+def expand_ops(ops: List, meta: Optional[Dict]) -> List:
+    """Flatten workflow ops into plain ['step', action index] ops (for drivers that do not go through Driver.run)."""
+    out = []
+    comps = (meta or {}).get("components") or []
+    for op in ops:
+        if op[0] == "wf":
+            if comps:
+                grp = comps[op[1] % len(comps)]
+                out.extend(["step", grp[v % len(grp)]] for v in op[2])
+        else:
+            out.append(op)
+    return out
+
+
 CATS = ["idle", "power", "scan", "nic", "service", "app", "file", "folder", "user", "session", "nmap", "acl", "port", "missing"]
 
 
@@ -85,15 +110,17 @@ def ops_strategy(max_ops: int = 30, gen: bool = True, reset_weight: int = 2):
     weight): about reset_weight/24 of the ops are resets, the rest steps (category-biased in generated scenarios)."""
 
     def mk(t):
-        k, a, cat, j, seed = t
+        k, a, cat, j, seed, verbs = t
         if k < reset_weight:
             return ["reset", seed]
+        if gen and k >= 19:
+            return ["wf", j, verbs]  # a workflow: several verbs in a row on ONE component (install, remove, install ...)
         if gen and k >= 8:
             return ["cat", cat, j]
         return ["step", a]
 
     op = st.tuples(st.integers(0, 23), st.integers(0, 10**6), st.sampled_from(CATS), st.integers(0, 200),
-                   st.sampled_from([None, None, 1, 7])).map(mk)
+                   st.sampled_from([None, None, 1, 7]), st.lists(st.integers(0, 30), min_size=2, max_size=5)).map(mk)
     return st.lists(op, min_size=1, max_size=max_ops)
 
 
@@ -111,6 +138,19 @@ def shipped_case_strategy(paths: List[str], max_ops: int = 30):
         "max_len": st.sampled_from([None, 3, 8, 20]),
         "ops": ops_strategy(max_ops, gen=False),
     })
+
+
+@st.composite
+def folder_case_strategy(draw, small_only: bool = True, max_ops: int = 30):
+    """Scheduled scenario folders, driven through MANY resets (past one lap of the schedule) with a few steps between."""
+    paths = [p for p in SCHEDULE_FOLDERS if not (small_only and "uc7" in p)]
+
+    def mk(t):
+        k, a = t
+        return ["reset", None] if k < 5 else ["step", a]
+
+    ops = draw(st.lists(st.tuples(st.integers(0, 9), st.integers(0, 10**6)).map(mk), min_size=6, max_size=max_ops))
+    return {"src": "folder", "path": draw(st.sampled_from(paths)), "ops": ops}
 
 
 class Driver:
@@ -154,6 +194,29 @@ class Driver:
                 self.episodes += 1
                 if after_reset and after_reset(i, op, obs, info) is False:
                     return
+            elif op[0] == "wf":
+                comps = (self.meta or {}).get("components") or []
+                if not comps:
+                    continue
+                grp = comps[op[1] % len(comps)]
+                for v in op[2]:
+                    if self.steps_in_episode >= env.game.options.max_episode_length + max_past:
+                        break
+                    a = grp[v % len(grp)]
+                    sub = ["step", a]
+                    if before_step and before_step(i, sub, a) is False:
+                        return
+                    try:
+                        out = env.step(a)
+                    except Exception as e:
+                        act = env.agent.action_manager.action_map[a][0]
+                        self.error = ("step", exc_sig(e), f"op#{i} {op} action#{a} {act}: {exc_msg(e)}")
+                        self.error_action = act
+                        return
+                    self.steps_in_episode += 1
+                    self.total_steps += 1
+                    if after_step and after_step(i, sub, a, out) is False:
+                        return
             else:
                 a = resolve_action(op, env.action_space.n, self.meta)
                 if before_step and before_step(i, op, a) is False:
